@@ -754,6 +754,10 @@ def call_builtin_method(it, obj, name, args, kwargs):
     from . import ext as _ext
     if isinstance(obj, _ext.SExt):
         return _ext.call_method(it, obj, name, args, kwargs)
+    if isinstance(obj, _ext.SDecoded):
+        if name == 'lower' and not args and not kwargs:
+            return _ext.SDecodedLower(obj)
+        raise EngineError(f'str.{name} of a received message')
     if isinstance(obj, _ext.SBytes):
         if name == 'decode':
             return _ext.SDecoded(obj)
